@@ -142,9 +142,9 @@ fn run<T: Fl + 'static>(c: &Case, lx: &mut Local) {
                             let g = cv[[i, j]].to_f64_();
                             let er = err_of(g, &want);
                             lx.ratio("cov", er / b);
-                            lx.check(er <= b, "C08/cov-value", || format!("[{}] cov(ddof {})[{},{}] = {:e}, exact {:e}, error {:e} > bound {:e}; matrix {:?} ({}x{}) layout {:?}", T::NAME, ddof, i, j, g, want.to_f64(), er, b, m, r, o, c.layout));
+                            lx.within(er, b, "C08/cov-value", || format!("[{}] cov(ddof {})[{},{}] = {:e}, exact {:e}, error {:e} > bound {:e}; matrix {:?} ({}x{}) layout {:?}", T::NAME, ddof, i, j, g, want.to_f64(), er, b, m, r, o, c.layout));
                             let gs = cv[[j, i]].to_f64_();
-                            lx.check((g - gs).abs() <= 2.0 * b, "C08/cov-asymmetric", || format!("[{}] cov[{},{}] = {:e} but cov[{},{}] = {:e}; {:?}", T::NAME, i, j, g, j, i, gs, c));
+                            lx.within((g - gs).abs(), 2.0 * b, "C08/cov-asymmetric", || format!("[{}] cov[{},{}] = {:e} but cov[{},{}] = {:e}; {:?}", T::NAME, i, j, g, j, i, gs, c));
                             if i == j {
                                 lx.check(g >= -b, "C08/cov-negative-diagonal", || format!("[{}] cov[{},{}] = {:e} < 0; {:?}", T::NAME, i, i, g, c));
                             }
@@ -195,10 +195,10 @@ fn run<T: Fl + 'static>(c: &Case, lx: &mut Local) {
                 let g = base[[i, j]].to_f64_();
                 let want = rho(i, j);
                 lx.ratio("pearson", (g - want).abs() / t);
-                lx.check((g - want).abs() <= t, "C08/pearson-value", || format!("[{}] pearson[{},{}] = {:e}, exact {:e}, tolerance {:e}; matrix {:?} ({}x{})", T::NAME, i, j, g, want, t, m, r, o));
+                lx.within((g - want).abs(), t, "C08/pearson-value", || format!("[{}] pearson[{},{}] = {:e}, exact {:e}, tolerance {:e}; matrix {:?} ({}x{})", T::NAME, i, j, g, want, t, m, r, o));
                 lx.check(g >= -1.0 - t && g <= 1.0 + t, "C08/pearson-out-of-range", || format!("[{}] pearson[{},{}] = {:e}; {:?}", T::NAME, i, j, g, c));
                 if i == j {
-                    lx.check((g - 1.0).abs() <= t, "C08/pearson-diagonal", || format!("[{}] pearson[{},{}] = {:e}; {:?}", T::NAME, i, i, g, c));
+                    lx.within((g - 1.0).abs(), t, "C08/pearson-diagonal", || format!("[{}] pearson[{},{}] = {:e}; {:?}", T::NAME, i, i, g, c));
                 }
                 obs.push(base[[i, j]].bits_());
             }
@@ -240,7 +240,7 @@ fn run<T: Fl + 'static>(c: &Case, lx: &mut Local) {
                             let w2 = if num.is_negative() { -r2 } else { r2 };
                             (w2 - rho(i, j) * sign).abs()
                         };
-                        lx.check((g1 - g2).abs() <= t + exact_shift, "C08/pearson-not-invariant", || format!("[{}] pearson[{},{}] = {:e} but after x0 -> {}*x0+{} it is {:e} (expected sign {}); matrix {:?} ({}x{})", T::NAME, i, j, base[[i, j]].to_f64_(), a, b, g2, sign, m, r, o));
+                        lx.within((g1 - g2).abs(), t + exact_shift, "C08/pearson-not-invariant", || format!("[{}] pearson[{},{}] = {:e} but after x0 -> {}*x0+{} it is {:e} (expected sign {}); matrix {:?} ({}x{})", T::NAME, i, j, base[[i, j]].to_f64_(), a, b, g2, sign, m, r, o));
                     }
                 }
             } else {
